@@ -384,7 +384,12 @@ func cmdCheck(args []string) int {
 	for k, v := range byBackend {
 		bb[k] = v
 	}
+	var teeth []toothResult
+	if tier == "thorough" {
+		teeth = runTeeth(prop)
+	}
 	cov := map[string]any{
+		"teeth":       teeth,
 		"obligations": nOb, "discharged": nDis,
 		"checker_cmd":              fmt.Sprintf("/verif/bin/govc check %s --tier %s", prop, tier),
 		"trusted_base":             tb,
